@@ -408,6 +408,41 @@ func c03HexHalfway(c *mc.Check, tailBits int) {
 	f.Done()
 }
 
+func c03HexPoint(c *mc.Check) {
+	f := c.Family("hex-point-positions", "hexadecimal floats of 1…22 significant hex digits (8 digit patterns: all f, a one and zeros, zeros and a one, a counting string, 8 and zeros, f…e, leading zeros, underscore-free) with the point at EVERY position — before the first digit, between any two, after the last, and absent — × exponents p0, p-4, p-1074, p960, p1000: more digits before the point than a 64-bit mantissa holds, all digits behind it, values that round to 2^1024 (out of range); compared bit for bit with strconv; non-trivial = strconv accepts", c03Replay)
+	if c.Replaying() {
+		return
+	}
+	const count = "123456789abcdef0fedcba9876543210"
+	var texts []string
+	for n := 1; n <= 22; n++ {
+		pats := []string{
+			strings.Repeat("f", n), "1" + strings.Repeat("0", n-1), strings.Repeat("0", n-1) + "1", count[:n],
+			"8" + strings.Repeat("0", n-1), strings.Repeat("f", n-1) + "e", "00" + count[:n], "1" + strings.Repeat("f", n-1) + "8",
+		}
+		for _, d := range pats {
+			for k := 0; k <= len(d)+1; k++ {
+				var m string
+				switch {
+				case k == len(d)+1:
+					m = d // no point at all
+				default:
+					m = d[:k] + "." + d[k:]
+				}
+				for _, e := range []string{"p0", "p-4", "p-1074", "p960", "p1000"} {
+					texts = append(texts, "0x"+m+e)
+				}
+				if k%5 == 0 {
+					texts = append(texts, "-0X"+strings.ToUpper(m)+"P+0")
+				}
+			}
+		}
+	}
+	c03RunList(c, f, texts, []string{"value"})
+	f.Sample(c03Case{"value", "0x10000000000000000p0"})
+	f.Done()
+}
+
 func c03MantExp(c *mc.Check, offsets int) {
 	f := c.Family("mantissa-x-exponent", fmt.Sprintf("decimal numbers M·10^e for every mantissa length 1…19, %d mantissas per length (windows of a fixed digit string, so mantissas of every length below, at and above 2^53 and 10^15…10^19) × every exponent −45…45, written as Me<e>, as d.ddd…e<e'> and (for small |e|) without an exponent: the exact-arithmetic fast paths (mantissa and power of ten both exact, the power split in two for e>22) and their limits; compared bit for bit with strconv; non-trivial = strconv accepts", offsets), c03Replay)
 	if c.Replaying() {
@@ -582,6 +617,7 @@ func TestVerifC03(t *testing.T) {
 	c03Strings(c, "hex-strings", []string{"0", "x", "1", "f", ".", "p", "+", "-", "4", "_"}, mc.Pick(c, 7, 8), []string{"value"})
 	c03Halfway(c, 1)
 	c03HexHalfway(c, mc.Pick(c, 8, 12))
+	c03HexPoint(c)
 	c03Powers(c)
 	c03MantExp(c, mc.Pick(c, 12, 27))
 	c03Exponents(c)
